@@ -290,6 +290,7 @@ type Val struct {
 	addr  *Addr
 	tuple []Val
 	fn    *FnVal
+	prot  *protInfo // value read from / address of a mutex-protected field
 }
 
 type deferred struct {
